@@ -65,6 +65,7 @@ type hcExchange struct {
 	RShort   int         `json:"rshort"` // >0: declare RBodyLen, send RShort bytes fewer, then close
 	RReset   bool        `json:"rreset"` // reset the backend connection in the middle of the body
 	RInc     bool        `json:"rincompressible"`
+	FailFirst int        `json:"fail_first"` // the first n attempts are answered 502 (a failure code) by the backend
 }
 
 type hcClient struct {
@@ -76,6 +77,7 @@ type hcScenario struct {
 	ByHost      bool       `json:"by_host"`
 	ServerForm  string     `json:"server_form"` // "", ip4, host, ip6, ip6noport, hostnoport ("" = ip4 or host per by_host)
 	MemCache    bool       `json:"mem_cache"`   // pool-level memoryCache for GET/POST 200/201
+	Retry       int        `json:"retry"`       // > 1: pool retryPolicy with that many attempts; status 502 is a failure code
 	KeepHost    bool       `json:"keep_host"`
 	Compress    int        `json:"compress"`     // -1: no compression section, else minLength
 	RespAdaptor string     `json:"resp_adaptor"` // "", compress, decompress, body
@@ -141,6 +143,7 @@ func hcGunzip(b []byte) ([]byte, error) {
 // ---- what the backend saw / what the client saw ------------------------
 
 type hcSeen struct {
+	attempts [][]byte // request body seen by each attempt
 	count   int
 	method  string
 	path    string
@@ -283,6 +286,9 @@ func hcNewChain(r *sim.Run, sc *hcScenario) (*hcChain, error) {
 	if sc.MemCache {
 		filters.WriteString("    memoryCache:\n      expiration: 10m\n      maxEntryBytes: 100000\n      codes: [200, 201]\n      methods: [GET, POST]\n")
 	}
+	if sc.Retry > 1 {
+		filters.WriteString("    retryPolicy: retry\n    failureCodes: [502]\n")
+	}
 	fmt.Fprintf(&filters, "    servers:\n    - url: http://%s\n", c.backAddr)
 	if sc.KeepHost {
 		filters.WriteString("      keepHost: true\n")
@@ -296,6 +302,9 @@ func hcNewChain(r *sim.Run, sc *hcScenario) (*hcChain, error) {
 		filters.WriteString("- name: respadaptor\n  kind: ResponseAdaptor\n  body: \"<replaced-by-adaptor>\"\n")
 	}
 	pyaml := "name: pipe\nkind: Pipeline\nflow:\n" + flow.String() + "filters:\n" + filters.String()
+	if sc.Retry > 1 {
+		pyaml += fmt.Sprintf("resilience:\n- name: retry\n  kind: Retry\n  maxAttempts: %d\n  waitDuration: 10ms\n", sc.Retry)
+	}
 	pspec, err := supervisor.NewSpec(pyaml)
 	if err != nil {
 		return nil, fmt.Errorf("pipeline spec: %v\n%s", err, pyaml)
@@ -355,6 +364,7 @@ func (c *hcChain) backendHandler(w http.ResponseWriter, req *http.Request) {
 		c.seen[id] = s
 	}
 	s.count++
+	s.attempts = append(s.attempts, body)
 	s.method, s.path, s.query, s.host = req.Method, req.URL.Path, req.URL.RawQuery, req.Host
 	s.hdr = req.Header.Clone()
 	s.body, s.bodyErr = body, berr
@@ -363,6 +373,13 @@ func (c *hcChain) backendHandler(w http.ResponseWriter, req *http.Request) {
 	ex := c.script[id]
 	if ex == nil {
 		w.WriteHeader(599)
+		return
+	}
+	if s.count <= ex.FailFirst {
+		c.r.Fault("backend.failure_code_answer")
+		w.Header().Set("Content-Length", "4")
+		w.WriteHeader(502)
+		w.Write([]byte("fail"))
 		return
 	}
 	payload := hcBody("r"+id, ex.RBodyLen, ex.RInc)
